@@ -113,6 +113,26 @@ def cmp_dispatch(sess, R, M, params=False, chains=False, setup=False, urls=False
     return bad
 
 
+def cmp_shortcut(sess, R, M):
+    """C10: the model comparison, plus a monitor on the REAL code alone — a request served by Flame.ServeHTTP (fast
+    path first) and the same request matched on the identically populated shadow tree (`TREQ` right after its `REQ`)
+    must name the same route with the same parameters, or both nothing. This needs no model, so it also speaks when
+    the registrations themselves were answered differently (a route set the model would have refused)."""
+    bad = cmp_dispatch(sess, R, M, params=True)
+    if _is_app(sess):
+        return bad
+    for i in range(len(sess) - 1):
+        if sess[i].startswith("REQ ") and sess[i + 1] == "T" + sess[i] and i + 1 < len(R):
+            a, b = parse_out(R[i]), parse_out(R[i + 1])
+            if a["kind"] not in ("h", "nf") or b["kind"] not in ("h", "nf"):
+                continue
+            same = a["kind"] == b["kind"] and (a["kind"] == "nf" or (
+                a.get("hid") == b.get("hid") and a.get("params") == b.get("params") and a.get("route") == b.get("route")))
+            if not same and (i + 1) not in bad:
+                bad.append(i + 1)
+    return sorted(bad)
+
+
 def router_stats(nontrivial_req, rule):
     def f(lines, sessions, R, M):
         seen = set()
